@@ -99,7 +99,9 @@ func fullSafety(r *c02gen.BRun, when string) *world.Problem {
 			return &world.Problem{Sig: "setfinal-after-report", Msg: fmt.Sprintf("%s: SetFinal(%d) was called when DA-included height %d was already reported", when, c.Height, c.DAIncludedSeen)}
 		}
 	}
-	if inc > 0 && last < inc && f.CrashRestarts == 0 {
+	// below the initial height there is no block: a chain starting at height n has its DA-included height at
+	// n-1 from the start, without anything to finalize
+	if inc >= r.C.Opts.InitialHeight && last < inc && f.CrashRestarts == 0 {
 		return &world.Problem{Sig: "setfinal-missing", Msg: fmt.Sprintf("%s: DA-included height %d reported, execution layer asked to finalize only up to %d", when, inc, last)}
 	}
 	if len(f.Errors) > 0 {
@@ -121,7 +123,9 @@ func TestC07FullNode(t *testing.T) {
 	dir := t.TempDir()
 	world.Run(t, "C07", "fullnode-inclusion", world.Scale(120, 800), func(t *rapid.T) c02gen.ScenarioB {
 		sc := c02gen.GenB(t, world.Scale(8, 16), true)
-		sc.InitialHeight = 1 // C07's quantifier does not range over initial heights
+		if sc.InitialHeight > 1<<30 {
+			sc.InitialHeight = 1 << 20
+		}
 		if rapid.IntRange(0, 2).Draw(t, "readfaults") == 0 {
 			maxDA := uint64(1)
 			for _, pl := range sc.Placements {
